@@ -23,8 +23,8 @@ ASSUMPTIONS = [
     "Carrier() needs the Windows-only greedy DLL: the harness swaps a stub in for rect.GreedyManager (the greedy step is not part of the property)",
     "pysat is trusted as the model enumerator; model sets are capped at 60000 (never reached on the generated sizes)",
 ]
-CASES = {"quick": 2500, "thorough": 150000}
-MIN_CASES = {"quick": 100, "thorough": 2500}
+CASES = {"quick": 12000, "thorough": 150000}
+MIN_CASES = {"quick": 2500, "thorough": 2500}
 REQUIRED_CLASSES = ["int_origin", "nonuniform", "fractional_size", "shifted_origin", "scaled", "decimal"]
 REQUIRED_COUNTERS = ["model_sets_compared", "models_enumerated", "reference_shapes_enumerated", "solve_return_checked", "bound:none", "bound:optimum", "bound:optimum+1",
                      "via:direct", "via:allocation", "via:select_box", "k:1", "k:2", "k:3"]
